@@ -120,7 +120,11 @@ impl AffineRepr for AffinePoint {
     }
 
     fn from_random_bytes(bytes: &[u8]) -> Option<Self> {
-        EdwardsAffine::from_random_bytes(bytes).map(|inner| AffinePoint { inner })
+        // The sampled point is an arbitrary point of the cofactor-4 curve; doubling
+        // it lands in the even subgroup 2E, whose points represent decaf377 elements.
+        EdwardsAffine::from_random_bytes(bytes).map(|p| AffinePoint {
+            inner: (p + p).into(),
+        })
     }
 
     fn mul_bigint(&self, other: impl AsRef<[u64]>) -> Self::Group {
